@@ -89,6 +89,7 @@ def run(check, prog):
     option_slots(check, prog)
     fortran_double_precision(check, prog)
     fortran_single_precision_quotients(check, prog)
+    series_exit(check, prog)
     cluster_order_cap(check, prog)
     # "at every detector point and polarization": the lens theories place the
     # Mie series relative to the polarisation direction (rule shared with C05)
@@ -1266,6 +1267,52 @@ def fortran_single_precision_quotients(check, prog):
         check.ok('H9-double-precision', 'mie_f quotients',
                  'no quotient of integer variables and default-real literals in any '
                  'unit reachable from Python', MIE_DIR)
+
+
+def series_exit(check, prog):
+    """H10: the single-sphere series of the cluster solver is not cut at the first
+    small term.  The Lorenz-Mie series is not monotone: for m > 1 narrow resonances
+    sit at orders x < n < m x, after the non-resonant terms have fallen below any
+    tolerance.  An early exit on the size of the *current* term alone (mie1:
+    `if(err.lt.qeps.or.n.eq.nstop) goto 310`) stops in front of such an order and
+    returns a_n = b_n = 0 for it.  Rule: in MIE1, a jump out of the order loop that
+    depends on the tolerance is conjoined with a lower bound on the order n."""
+    import re
+    from hpstatic.fortran import FortranProgram
+    from .c10 import meson_inputs, MIE_DIR
+    files = meson_inputs(prog.root, MIE_DIR)
+    fp = FortranProgram(prog.root, files)
+    u = fp.units.get('MIE1')
+    if u is None:
+        check.error('subroutine MIE1 not found in the mie_f sources')
+        return
+    exits = []
+    for line, text in u.stmts:
+        t = ' '.join(text.lower().split())
+        m = re.match(r'^if\s*\((.*)\)\s*go\s*to\s*(\d+)\s*$', t)
+        if m and 'qeps' in m.group(1):
+            exits.append((line, m.group(1), text.strip()))
+    check.need('tolerance-dependent exits of the order loop in MIE1', len(exits), 1,
+               'H10-series-exit', 'MIE1 order loop',
+               'the series ends on a tolerance or at the Wiscombe bound',
+               '%s:%d' % (u.path, u.line))
+    for line, cond, text in exits:
+        bad = []
+        for dis in re.split(r'\.or\.', cond):
+            if 'qeps' not in dis:
+                continue
+            guarded = '.and.' in dis and re.search(
+                r'\bn\s*\.(gt|ge)\.', dis) is not None
+            if not guarded:
+                bad.append(dis.strip())
+        check.require(not bad, 'H10-series-exit', 'MIE1: ' + ' '.join(text.split()),
+                      'an exit on the size of the current term also requires the order '
+                      'to be past the resonance region', '%s:%d' % (u.path, line),
+                      fail_detail='the order loop is left as soon as %s, whatever n '
+                      'is: for x = 10.98, m = 1.948 the term of order 15 is 3e-7 of the '
+                      'sum and the loop stops, while b_17 has modulus 0.92 -- a '
+                      'one-sphere cluster is 21 %% off the Lorenz-Mie solver (C_ext '
+                      '764.5 for 952.3) with the default tolerance' % ' / '.join(bad))
 
 
 def option_slots(check, prog):
